@@ -1,4 +1,5 @@
 import Sck.Proofs.ProfileExtra
+import Sck.Proofs.ProfileTiesGeneral
 
 /-! # C18 — profile conversions and valuation generators
 
@@ -107,6 +108,54 @@ theorem C18_ties (row : List (Option Nat)) (order : List Nat) (first : Bool)
 theorem C18_ties_order_exists (row : List (Option Nat)) (first : Bool) :
     validAscOrder row (ascOrderFirst row) first = true :=
   ascOrderFirst_valid row first
+
+/-! ### B for EVERY encoding of a weak order (no `wfTiesB`): the behaviour after `fix:` F14
+
+`C18_ties` above needs rows whose ties are numbered competition style (1,1,3), because the pinned code left untied entries
+untouched. A densely numbered row (1,1,2) is a legal `ProfileWithTies` too; on it the pinned code returned (1,2,2) — see the
+`example` below: `breakTiesWith` (the pinned behaviour) violates strictness there. The repaired code writes 1 + the position
+in the sorted order into every non-NaN entry (`breakTiesPos`) and the three clauses hold unconditionally. -/
+
+theorem C18_ties_general_model_ok (row : List (Option Nat)) (order : List Nat) (first : Bool)
+    (h : validAscOrder row order first = true) :
+    strictOkB row (breakTiesPos row order) first = true :=
+  breakTiesPos_ok row order first h
+
+/-- an accepted row: same length; same NaN pattern; strict; every strict comparison preserved; with `first`, inside a tie
+class the smaller position gets the smaller rank -/
+theorem C18_ties_general_spec (row out : List (Option Nat)) (first : Bool)
+    (h : strictOkB row out first = true) :
+    out.length = row.length ∧
+    (∀ j : Nat, out[j]? = some none ↔ row[j]? = some none) ∧
+    (∀ (i j r : Nat), out[i]? = some (some r) → out[j]? = some (some r) → i = j) ∧
+    (∀ (a b ra rb : Nat), row[a]? = some (some ra) → row[b]? = some (some rb) → ra < rb →
+      ∃ sa sb, out[a]? = some (some sa) ∧ out[b]? = some (some sb) ∧ sa < sb) ∧
+    (first = true → ∀ (a b r : Nat), a < b → row[a]? = some (some r) → row[b]? = some (some r) →
+      ∃ sa sb, out[a]? = some (some sa) ∧ out[b]? = some (some sb) ∧ sa < sb) :=
+  strictOkB_spec row out first h
+
+/-- B in one statement, for every row with ties whatever its numbering -/
+theorem C18_ties_general (row : List (Option Nat)) (order : List Nat) (first : Bool)
+    (h : validAscOrder row order first = true) :
+    (∀ j : Nat, (breakTiesPos row order)[j]? = some none ↔ row[j]? = some none) ∧
+    (∀ (i j r : Nat), (breakTiesPos row order)[i]? = some (some r) →
+      (breakTiesPos row order)[j]? = some (some r) → i = j) ∧
+    (∀ (a b ra rb : Nat), row[a]? = some (some ra) → row[b]? = some (some rb) → ra < rb →
+      ∃ sa sb, (breakTiesPos row order)[a]? = some (some sa) ∧
+        (breakTiesPos row order)[b]? = some (some sb) ∧ sa < sb) :=
+  let s := strictOkB_spec row _ first (breakTiesPos_ok row order first h)
+  ⟨s.2.1, s.2.2.1, s.2.2.2.1⟩
+
+/-- on competition-numbered rows the repair changes nothing -/
+theorem C18_ties_repair_conservative (row : List (Option Nat)) (order : List Nat) (first : Bool)
+    (h : validAscOrder row order first = true) (hwf : wfTiesB row = true) :
+    breakTiesWith row order = breakTiesPos row order :=
+  breakTiesWith_eq_pos row order first h hwf
+
+/-- the competition-style checker implies the general one -/
+theorem C18_strictify_implies_general (row out : List (Option Nat)) (first : Bool)
+    (h : strictifyOkB row out first = true) : strictOkB row out first = true :=
+  strictOkB_of_strictifyOkB row out first h
 
 /-! ## C. `incomplete_profile_to_complete_profile` (`mode` 0 accept, 1 first, otherwise random) -/
 
@@ -277,6 +326,17 @@ example : strictifyOkB [some 1, some 1, some 3, none, some 3, some 3]
 -- rejected: a strict comparison reversed
 example : strictifyOkB [some 1, some 1, some 3, none, some 3, some 3]
     [some 3, some 1, some 2, none, some 5, some 4] false = false := by decide
+
+-- B': the densely numbered row (1, 1, 2): not `wfTiesB`; the pinned behaviour is NOT strict there, the repaired one is
+example : wfTiesB [some 1, some 1, some 2] = false := by decide
+example : validAscOrder [some 1, some 1, some 2] [0, 1, 2] true = true := by decide
+example : breakTiesWith [some 1, some 1, some 2] [0, 1, 2] = [some 1, some 2, some 2] := by decide
+example : strictOkB [some 1, some 1, some 2] (breakTiesWith [some 1, some 1, some 2] [0, 1, 2]) true = false := by decide
+example : breakTiesPos [some 1, some 1, some 2] [0, 1, 2] = [some 1, some 2, some 3] := by decide
+example : strictOkB [some 1, some 1, some 2] [some 1, some 2, some 3] true = true := by decide
+example : breakTiesPos [some 2, some 1, some 2, none, some 3] [1, 2, 0, 4, 3] = [some 3, some 1, some 2, none, some 4] := by decide
+example : strictOkB [some 2, some 1, some 2, none, some 3] [some 3, some 1, some 2, none, some 4] false = true := by decide
+example : strictOkB [some 2, some 1, some 2, none, some 3] [some 3, some 1, some 2, none, some 4] true = false := by decide
 
 -- C: row (1, NaN, 2, NaN), m = 4, k = 2
 example : wfIncompleteB [some 1, none, some 2, none] = true := by decide
